@@ -297,3 +297,37 @@ def table_programs():
 
 
 TABLE_ARGS = [['0']]
+
+
+# ------------------------------------------------ entry-point argument binding
+def entry_programs():
+    """every @is_you signature of up to three parameters with at most one array at any position: scalars before and
+    after the array, element types int/byte/string, 0, 1 and 3 array arguments.  yields (tag, Program, args)"""
+    import itertools
+    text = {INT: ['-7', '300', '12'], BYTE: ['65', '255', '0'], STRING: ['hey', '', 'x y']}
+    canary = Decl('canary', INT, _i(1234))
+    for n in (0, 1, 2):
+        for kinds in itertools.product((INT, BYTE, STRING), repeat=n):
+            for arr_at in [None] + list(range(n + 1)):
+                for el in ((INT, BYTE, STRING) if arr_at is not None else (None,)):
+                    for k in ((0, 1, 3) if arr_at is not None else (0,)):
+                        params, args, body = [], [], []
+                        for i in range(n + 1):
+                            if arr_at == i:
+                                t = Arr(el, True)
+                                params.append(('arr', t, False))
+                                a = Var('arr', t)
+                                args += [text[el][j % 3] for j in range(k)]
+                                j = Var('j', INT)
+                                body += [W(S('len=')), W(Len(a)), _mark(' '),
+                                         For(Decl('j', INT, _i(0)), Bin('<', j, Len(a)), OpAssign(j, '+', _i(1)),
+                                             [W(Cast(Index(a, j), INT) if el == BYTE else Index(a, j)), _mark(',')]), _mark(' ')]
+                            if i < n:
+                                nm = f'p{i}'
+                                params.append((nm, kinds[i], False))
+                                args.append(text[kinds[i]][i % 3])
+                                v = Var(nm, kinds[i])
+                                body += [W(S(nm + '=')), W(Cast(v, INT) if kinds[i] == BYTE else v), _mark(' ')]
+                        body += [W(Var('canary', INT)), _mark('\n')]
+                        main = Func('@is_you', params, EMPTY, body)
+                        yield (f'entry/{"-".join(kinds) or "none"}/arr@{arr_at}/{el}/k{k}', Program([canary], [main]), args)
